@@ -178,4 +178,4 @@ impl SyncBlocker {
 
 #[cfg(kani)]
 #[path = "/verif/harness/may/sync_blocking.rs"]
-mod verif_kani;
+pub(crate) mod verif_kani;
